@@ -72,3 +72,31 @@ package golang
 
 //@ func (*VersionRange).String
 //@   ensures text: result == arg0.original   [C18]
+
+// ---- range text to constraints (C02): an operator directly before a valid version
+
+//@ func parseSingleGoConstraint
+//@   ensures one: result1 == nil ==> len(result0) == 1 && result0[0] != nil
+//@   ensures op>=: strings.HasPrefix(strings.TrimSpace(c), ">=") && result1 == nil ==> result0[0].operator == ">=" && result0[0].version == strings.TrimSpace(strings.TrimSpace(c)[2:])   [C02]
+//@   ensures accepts>=: strings.HasPrefix(strings.TrimSpace(c), ">=") ==> result1 == nil   [C02]
+//@   ensures op<=: strings.HasPrefix(strings.TrimSpace(c), "<=") && result1 == nil ==> result0[0].operator == "<=" && result0[0].version == strings.TrimSpace(strings.TrimSpace(c)[2:])   [C02]
+//@   ensures accepts<=: strings.HasPrefix(strings.TrimSpace(c), "<=") ==> result1 == nil   [C02]
+//@   ensures op!=: strings.HasPrefix(strings.TrimSpace(c), "!=") && result1 == nil ==> result0[0].operator == "!=" && result0[0].version == strings.TrimSpace(strings.TrimSpace(c)[2:])   [C02]
+//@   ensures accepts!=: strings.HasPrefix(strings.TrimSpace(c), "!=") ==> result1 == nil   [C02]
+//@   ensures op>: strings.HasPrefix(strings.TrimSpace(c), ">") && !strings.HasPrefix(strings.TrimSpace(c), ">=") && result1 == nil ==> result0[0].operator == ">" && result0[0].version == strings.TrimSpace(strings.TrimSpace(c)[1:])   [C02]
+//@   ensures accepts>: strings.HasPrefix(strings.TrimSpace(c), ">") && !strings.HasPrefix(strings.TrimSpace(c), ">=") ==> result1 == nil   [C02]
+//@   ensures op<: strings.HasPrefix(strings.TrimSpace(c), "<") && !strings.HasPrefix(strings.TrimSpace(c), "<=") && result1 == nil ==> result0[0].operator == "<" && result0[0].version == strings.TrimSpace(strings.TrimSpace(c)[1:])   [C02]
+//@   ensures accepts<: strings.HasPrefix(strings.TrimSpace(c), "<") && !strings.HasPrefix(strings.TrimSpace(c), "<=") ==> result1 == nil   [C02]
+//@   ensures op=: strings.HasPrefix(strings.TrimSpace(c), "=") && result1 == nil ==> result0[0].operator == "=" && result0[0].version == strings.TrimSpace(strings.TrimSpace(c)[1:])   [C02]
+//@   ensures accepts=: strings.HasPrefix(strings.TrimSpace(c), "=") ==> result1 == nil   [C02]
+
+//@ func parseGoRange
+//@   loop 1 invariant len(constraints) == rangeindex + 1 && (forall j int :: 0 <= j && j <= rangeindex ==> constraints[j] == parseSingleGoConstraint(parts[j]).0[0])
+//@   ensures and-list: strings.Contains(rangeStr, " ") && result1 == nil ==> len(result0) == len(strings.Fields(rangeStr)) && (forall j int :: 0 <= j && j < len(result0) ==> result0[j] == parseSingleGoConstraint(strings.Fields(rangeStr)[j]).0[0])   [C02]
+//@   ensures single: !strings.Contains(rangeStr, " ") ==> result0 == parseSingleGoConstraint(rangeStr).0 && (result1 == nil) == (parseSingleGoConstraint(rangeStr).1 == nil)   [C02]
+
+// lifting to whole ranges: an AND-range of comparator constraints treats versions that compare equal alike (the two
+// quantified sides are what Contains returns for v1 and v2, by its `and` clause)
+//@ lemma c20-range-equal [C20] uses c20-equal: forall gr *VersionRange, v1, v2 *Version :: gr != nil && v1 != nil && v2 != nil && wfRange(gr) && (forall i int :: 0 <= i && i < len(gr.constraints) ==> (gr.constraints[i].operator == "=" || gr.constraints[i].operator == "!=" || gr.constraints[i].operator == "<" || gr.constraints[i].operator == "<=" || gr.constraints[i].operator == ">" || gr.constraints[i].operator == ">=" || gr.constraints[i].operator == "==")) && v1.Compare(v2) == 0 ==> ((forall i int :: 0 <= i && i < len(gr.constraints) ==> gr.constraints[i].matches(v1)) == (forall i int :: 0 <= i && i < len(gr.constraints) ==> gr.constraints[i].matches(v2)))
+// ... and the set a range without != accepts is convex in the order
+//@ lemma c20-range-convex [C20] uses c20-convex: forall gr *VersionRange, a, b, d *Version :: gr != nil && a != nil && b != nil && d != nil && wfRange(gr) && (forall i int :: 0 <= i && i < len(gr.constraints) ==> (gr.constraints[i].operator == "=" || gr.constraints[i].operator == "!=" || gr.constraints[i].operator == "<" || gr.constraints[i].operator == "<=" || gr.constraints[i].operator == ">" || gr.constraints[i].operator == ">=" || gr.constraints[i].operator == "==") && gr.constraints[i].operator != "!=") && a.Compare(b) <= 0 && b.Compare(d) <= 0 && (forall i int :: 0 <= i && i < len(gr.constraints) ==> gr.constraints[i].matches(a)) && (forall i int :: 0 <= i && i < len(gr.constraints) ==> gr.constraints[i].matches(d)) ==> (forall i int :: 0 <= i && i < len(gr.constraints) ==> gr.constraints[i].matches(b))
